@@ -344,12 +344,21 @@ def nontrivial(job):
 def _work(arg):
     tier, seed, chunk, nch, exe = arg
     S = optrun.Summary()
-    jobs = [j for i, j in enumerate(_jobs(tier)) if i % nch == chunk]
-    rng = random.Random("c17-%d-%d" % (seed, chunk))
+    jobs = [j for i, j in enumerate(_jobs(tier)) if i % nch == max(chunk, 0)]
+    rng = random.Random("c17-%d-%d" % (seed, max(chunk, 0)))
     jobs += list(_random_jobs(rng, (20000 if tier == "quick" else 400000) // nch))
     if chunk % 8 == 0:
         jobs += list(_scale_jobs(rng))
-    res = batchrun.run_ops(exe, [op_line(j) for j in jobs])
+    if chunk < 0:
+        # memcheck sample: small operations of chunk 0 on the uninstrumented build under valgrind (values used
+        # before they were initialised are invisible to ASan / UBSan)
+        small = [j for j in jobs if len(op_line(j)) < 400]
+        random.Random("memcheck-%d" % seed).shuffle(small)
+        jobs = small[:600 if tier == "quick" else 4000]
+        res = batchrun.run_ops(exe, [op_line(j) for j in jobs], batch=100, cpu=600, wrapper=batchrun.MEMCHECK)
+        S.counters["operations-under-memcheck"] += len(jobs)
+    else:
+        res = batchrun.run_ops(exe, [op_line(j) for j in jobs])
     for job, r in zip(jobs, res):
         S.n += 1
         S.counters["fn:" + job[0]] += 1
@@ -399,7 +408,11 @@ def run(tier, replay=None):
         S.distinct = {1, 2}
     else:
         n = nchunks(tier)
-        for part in optrun.pmap(_work, [(tier, run_.seed, c, n, exe) for c in range(n)]):
+        import shutil
+        work = [(tier, run_.seed, c, n, exe) for c in range(n)]
+        if shutil.which("valgrind"):
+            work.append((tier, run_.seed, -1, n, build.build_exe("plain", ["strdrv.cpp"])))
+        for part in optrun.pmap(_work, work):
             S.merge(part)
         # the same functions from 2-16 threads on thread-private arguments: serial results, no data race
         S.n += mtindep.phase(run_, "string", tier, S.counters)
